@@ -571,6 +571,9 @@ func (f *Facts) nonNegD(v ssa.Value, d int, seen map[ssa.Value]bool) bool {
 	if k, ok := constInt(v); ok {
 		return k >= 0
 	}
+	if _, ok := f.helperChecked(v); ok {
+		return true
+	}
 	t := termOf(v)
 	if t.isLen() && t.Off >= 0 {
 		return true
@@ -656,6 +659,12 @@ func shifted(v ssa.Value, k int64) ssa.Value {
 
 // ltLen: facts imply v < len(x) (v + off < len(x)).
 func (f *Facts) ltLen(v ssa.Value, x ssa.Value) bool {
+	// v was checked by a bounds helper against len(x)
+	if l, ok := f.helperChecked(v); ok {
+		if call, isCall := stripNumConv(l).(*ssa.Call); isCall && isBuiltinCall(call, "len") && (call.Call.Args[0] == x || equivValue(call.Call.Args[0], x, 0)) {
+			return true
+		}
+	}
 	// x = append(s, k elements): v < len(s)+k ⇐ v-k < len(s)
 	if s0, k, ok := appendBase(x); ok {
 		if f.ltLen(shifted(v, k), s0) {
@@ -877,4 +886,106 @@ func (f *Facts) nonZero(v ssa.Value) bool {
 		}
 	}
 	return false
+}
+
+// ---- bounds helpers --------------------------------------------------------------------------------
+
+// A function  h(index int, length int) (int, bool)  whose bool result is, on every return,
+// `i ≥ 0 ∧ i < length` for the returned i summarises a bounds check: where the caller knows the
+// bool is true, the returned index is a valid index of anything whose length was passed.
+var boundsHelperMemo = map[*ssa.Function]int{}
+
+// boundsHelper returns the index of the length parameter (-1: not a bounds helper).
+func boundsHelper(fn *ssa.Function) int {
+	if v, ok := boundsHelperMemo[fn]; ok {
+		return v
+	}
+	boundsHelperMemo[fn] = -1
+	sig := fn.Signature
+	if len(fn.Blocks) == 0 || sig.Results().Len() != 2 || !isIntegerType(sig.Results().At(0).Type()) || sig.Results().At(1).Type().String() != "bool" {
+		return -1
+	}
+	res := -2
+	allInstrs(fn, func(in ssa.Instruction) {
+		ret, ok := in.(*ssa.Return)
+		if !ok || in.Block() == fn.Recover || res == -1 {
+			return
+		}
+		i, b := ret.Results[0], ret.Results[1]
+		// b = phi(false [i>=0 fails], i < length [i>=0 holds])  or  const false
+		if cv, isC := b.(*ssa.Const); isC && cv.Value != nil && cv.Value.String() == "false" {
+			return
+		}
+		phi, isPhi := b.(*ssa.Phi)
+		if !isPhi || len(phi.Edges) != 2 {
+			res = -1
+			return
+		}
+		lenIdx := -1
+		okShape := false
+		for j, e := range phi.Edges {
+			bo, isB := e.(*ssa.BinOp)
+			if !isB || bo.Op != token.LSS || stripNumConv(bo.X) != stripNumConv(i) {
+				continue
+			}
+			prm, isPrm := stripNumConv(bo.Y).(*ssa.Parameter)
+			if !isPrm {
+				continue
+			}
+			other := phi.Edges[1-j]
+			cv, isC := other.(*ssa.Const)
+			if !isC || cv.Value == nil || cv.Value.String() != "false" {
+				continue
+			}
+			// the comparison is evaluated only where i >= 0
+			pb := phi.Block().Preds[j]
+			if len(pb.Instrs) == 0 {
+				continue
+			}
+			if FactsAt(pb.Instrs[len(pb.Instrs)-1]).nonNeg(i) || FactsAt(bo).nonNeg(i) {
+				for k, p := range fn.Params {
+					if p == prm {
+						lenIdx = k
+						okShape = true
+					}
+				}
+			}
+		}
+		if !okShape || (res >= 0 && res != lenIdx) {
+			res = -1
+			return
+		}
+		res = lenIdx
+	})
+	if res < 0 {
+		res = -1
+	}
+	boundsHelperMemo[fn] = res
+	return res
+}
+
+// helperChecked: v is the index returned by a bounds helper whose bool result is known true here;
+// returns the value passed as length.
+func (f *Facts) helperChecked(v ssa.Value) (ssa.Value, bool) {
+	e, ok := stripNumConv(v).(*ssa.Extract)
+	if !ok || e.Index != 0 {
+		return nil, false
+	}
+	call, ok := e.Tuple.(*ssa.Call)
+	if !ok || call.Call.StaticCallee() == nil {
+		return nil, false
+	}
+	li := boundsHelper(call.Call.StaticCallee())
+	if li < 0 {
+		return nil, false
+	}
+	for _, ref := range *call.Referrers() {
+		if e1, isE := ref.(*ssa.Extract); isE && e1.Index == 1 && f.TrueV[e1] {
+			args := callArgs(call.Common())
+			if li < len(args) {
+				return args[li], true
+			}
+		}
+	}
+	return nil, false
 }
